@@ -477,6 +477,8 @@ func GetPKAndHashSum(cmdName string, cmd redcon.Command) (string, []byte, int, e
 	return namespace, pk, pkSum, nil
 }
 
+var errKeysNotInSamePartition = errors.New("ERR the keys of the command are not in the same partition")
+
 func (s *Server) GetHandleNode(ns string, pk []byte, pkSum int, cmdName string,
 	cmd redcon.Command) (*node.KVNode, error) {
 	if len(cmd.Args) < 2 {
@@ -490,6 +492,28 @@ func (s *Server) GetHandleNode(ns string, pk []byte, pkSum int, cmdName string,
 	}
 	if n.Node.IsStopping() {
 		return nil, common.ErrStopped
+	}
+	if cmdName == "mget" && len(cmd.Args) > 2 {
+		// mget names several primary keys and is not split over the partitions (see doMergeCommand):
+		// it is executed by the partition of its first key, so every other key must be owned by that
+		// partition too. A key of another partition would be looked up in the wrong partition and
+		// answered as missing although it exists.
+		for _, rawKey := range cmd.Args[2:] {
+			kns, kpk, err := common.ExtractNamesapce(rawKey)
+			if err != nil {
+				return nil, err
+			}
+			if kns != ns {
+				return nil, common.ErrInvalidArgs
+			}
+			kn, err := s.nsMgr.GetNamespaceNodeWithPrimaryKey(kns, kpk)
+			if err != nil {
+				return nil, err
+			}
+			if kn.FullName() != n.FullName() {
+				return nil, errKeysNotInSamePartition
+			}
+		}
 	}
 	return n.Node, nil
 }
